@@ -171,6 +171,7 @@ func runC20(c *Ctx) {
 	checkSearchFlags(c, "C20-R3", "internal/checks.RuleDependencyCheck.Check")
 	c20RemovedRulesNeedNoFile(c, "C20-R4")
 	c20EverySelectorReturned(c, "C20-R3")
+	c20Round5(c)
 	c20TreeComplete(c, "C20-R3")
 	if chk != nil {
 		info := chk.Pkg.TypesInfo
@@ -951,4 +952,69 @@ func c20EverySelectorReturned(c *Ctx, R string) {
 	}
 	c.Check(why == "", R, "HasVectorSelector:every selector of every child is returned", loop.Pos(), "append(vs, HasVectorSelector(child)...)",
 		why+": selectors are filtered on the way up, so an expression that mentions two alerts (or two metrics) through selectors of the same shape yields only the first, and removing the rule behind the other is not reported")
+}
+
+// c20Round5: two facts outside the dependency check that decide which rules
+// exist at all. (a) cmd/pint.parseNames: only the word `legacy` selects the
+// legacy name validation; everything else — the unset default in particular —
+// means UTF-8 names, as Prometheus 3 does. With the default flipped a rule
+// named `http.requests:rate5m` is an invalid rule, and a removed one is skipped
+// without a warning. Decided by evaluation. (b) The glob finder and the branch
+// finder decide whether a file takes part from the same path: GlobFinder.Find
+// asks the path filter about the path the file was found under (`fp.path`), not
+// about the symlink target.
+func c20Round5(c *Ctx) {
+	R := "C20-R2"
+	p := c.P
+	if pn := c.MustFunc(R, "cmd/pint.parseNames"); pn != nil {
+		info := pn.Pkg.TypesInfo
+		sig := pn.Obj.Type().(*types.Signature)
+		want := map[string]string{"legacy": "LegacyValidation", "utf-8": "UTF8Validation", "": "UTF8Validation", "bogus": "UTF8Validation"}
+		vals := map[string]int64{}
+		if mp := p.Pkg("github.com/prometheus/common/model"); mp != nil {
+			for _, nm := range []string{"LegacyValidation", "UTF8Validation"} {
+				if k, ok := mp.Types.Scope().Lookup(nm).(*types.Const); ok {
+					v, _ := constantInt(k)
+					vals[nm] = v
+				}
+			}
+		}
+		if len(vals) != 2 || sig.Params().Len() != 1 {
+			c.Undecided(R, "parseNames:validation schemes", pn.Decl.Pos(), "model.LegacyValidation / UTF8Validation not found")
+		} else {
+			for _, w := range []string{"legacy", "utf-8", "", "bogus"} {
+				ev := &miniEval{info: info, prog: p, env: map[types.Object]mval{}}
+				ev.env[sig.Params().At(0)] = mStr(w)
+				ctl := ev.block(pn.Decl.Body.List)
+				key := "parseNames:" + strq(w) + " selects " + want[w]
+				if ev.undec != "" || ctl.kind != 'r' || ctl.ret.k != mvInt {
+					c.Undecided(R, key, pn.Decl.Pos(), "could not be evaluated: "+ev.undec)
+					continue
+				}
+				c.Check(ctl.ret.i == vals[want[w]], R, key, pn.Decl.Pos(), want[w],
+					"parser.names = "+strq(w)+" selects the other name validation scheme: with the default changed, rules whose names are only valid as UTF-8 names become invalid rules — they are neither dependants nor replacements, and a removed one gets no rule/dependency warning")
+			}
+		}
+	}
+	if gf := c.MustFunc(R, "internal/discovery.GlobFinder.Find"); gf != nil {
+		info := gf.Pkg.TypesInfo
+		n, okP := 0, true
+		got := ""
+		ast.Inspect(gf.Decl.Body, func(nd ast.Node) bool {
+			call, ok := nd.(*ast.CallExpr)
+			if !ok || len(call.Args) != 1 {
+				return true
+			}
+			if fn := Callee(info, call); fn == nil || fn.Name() != "IsPathAllowed" {
+				return true
+			}
+			n++
+			if sel, isSel := ast.Unparen(call.Args[0]).(*ast.SelectorExpr); !isSel || sel.Sel.Name != "path" || fieldOwner(info, sel) != "internal/discovery.filePath" {
+				okP, got = false, exprStr(call.Args[0])
+			}
+			return true
+		})
+		c.Check(n >= 1 && okP, R, "GlobFinder.Find:the path filter is asked about the path the file was found under", gf.Decl.Pos(), "fp.path",
+			"include/exclude patterns are applied to `"+got+"`: the branch finder filters on the link path, so a rule file that belongs to the included tree only through a symlink is loaded by one finder and not by the other — its rules stop counting as dependants and replacements")
+	}
 }
